@@ -12,26 +12,26 @@ import (
 // Assumed contracts of the standard-library functions jennifer calls (the trusted base).
 // Each entry is (name, human-readable assumed contract); the models below implement exactly these.
 var trustedBase = map[string]string{
-	"fmt.Sprintf":  "fmt.Sprintf with a constant format of literal text and %s %d %q %v %#v %T verbs returns the concatenation of the pieces (%s of a string: the string; %d: itoa; %q: quote; %#v: goSyntax; %T: typeNameOf); any other format is opaque",
-	"fmt.Fprintf":  "fmt.Fprintf(w, constant format, ...) performs exactly one w.Write of the Sprintf text and returns that Write's error",
-	"fmt.Fprint":   "fmt.Fprint(w, strings...) performs exactly one w.Write of the concatenated operands and returns that Write's error",
-	"fmt.Errorf":   "fmt.Errorf returns a non-nil error and has no other effect",
-	"(*bytes.Buffer).Write":  "(*bytes.Buffer).Write appends and never fails",
-	"(*bytes.Buffer).String": "(*bytes.Buffer).String / Bytes return everything written so far; the zero Buffer is empty",
-	"(*bytes.Buffer).Bytes":  "(*bytes.Buffer).String / Bytes return everything written so far; the zero Buffer is empty",
-	"io.Writer.Write":        "w.Write(p) on an arbitrary io.Writer: unconstrained (n, err); the ghost log records the call and its argument",
-	"strings.Contains":       "strings.Contains/HasPrefix/HasSuffix are the SMT string predicates",
-	"strings.HasPrefix":      "strings.Contains/HasPrefix/HasSuffix are the SMT string predicates",
-	"strings.HasSuffix":      "strings.Contains/HasPrefix/HasSuffix are the SMT string predicates",
-	"strings.LastIndex":      "strings.LastIndex(s, sep) = lastIndex(s, sep): -1 iff sep does not occur, else 0 <= r <= len(s)-len(sep), sep occurs at r and nowhere later",
-	"strings.ToLower":        "strings.ToLower = toLower (uninterpreted)",
-	"strconv.Quote":          "strconv.Quote(s) = quote(s) (uninterpreted; axioms in std.spec)",
-	"strconv.QuoteRune":      "strconv.QuoteRune(r) = quoteRune(r) (uninterpreted)",
-	"strconv.CanBackquote":   "strconv.CanBackquote(s) = canBackquote(s) (uninterpreted; axioms in std.spec)",
-	"sort.Strings":           "sort.Strings(a) permutes a into ascending order and touches nothing else",
-	"go/format.Source":       "go/format.Source(b) returns (fmtOf(b), nil) or (_, non-nil error); it succeeds only if b parses, and then fmtOf(b) parses too",
-	"os.WriteFile":           "os.WriteFile performs one mutating filesystem operation on the named file (ghost fslog+1, fsname, fsdata) and returns an unconstrained error",
-	"regexp.MustCompile":     "regexp.MustCompile(`[^a-z0-9]`).ReplaceAllString(s, \"\") = stripNonAlnum(s), which satisfies alnumLower",
+	"fmt.Sprintf":                       "fmt.Sprintf with a constant format of literal text and %s %d %q %v %#v %T verbs returns the concatenation of the pieces (%s of a string: the string; %d: itoa; %q: quote; %#v: goSyntax; %T: typeNameOf); any other format is opaque",
+	"fmt.Fprintf":                       "fmt.Fprintf(w, constant format, ...) performs exactly one w.Write of the Sprintf text and returns that Write's error",
+	"fmt.Fprint":                        "fmt.Fprint(w, strings...) performs exactly one w.Write of the concatenated operands and returns that Write's error",
+	"fmt.Errorf":                        "fmt.Errorf returns a non-nil error and has no other effect",
+	"(*bytes.Buffer).Write":             "(*bytes.Buffer).Write appends and never fails",
+	"(*bytes.Buffer).String":            "(*bytes.Buffer).String / Bytes return everything written so far; the zero Buffer is empty",
+	"(*bytes.Buffer).Bytes":             "(*bytes.Buffer).String / Bytes return everything written so far; the zero Buffer is empty",
+	"io.Writer.Write":                   "w.Write(p) on an arbitrary io.Writer: unconstrained (n, err); the ghost log records the call and its argument",
+	"strings.Contains":                  "strings.Contains/HasPrefix/HasSuffix are the SMT string predicates",
+	"strings.HasPrefix":                 "strings.Contains/HasPrefix/HasSuffix are the SMT string predicates",
+	"strings.HasSuffix":                 "strings.Contains/HasPrefix/HasSuffix are the SMT string predicates",
+	"strings.LastIndex":                 "strings.LastIndex(s, sep) = lastIndex(s, sep): -1 iff sep does not occur, else 0 <= r <= len(s)-len(sep), sep occurs at r and nowhere later",
+	"strings.ToLower":                   "strings.ToLower = toLower (uninterpreted)",
+	"strconv.Quote":                     "strconv.Quote(s) = quote(s) (uninterpreted; axioms in std.spec)",
+	"strconv.QuoteRune":                 "strconv.QuoteRune(r) = quoteRune(r) (uninterpreted)",
+	"strconv.CanBackquote":              "strconv.CanBackquote(s) = canBackquote(s) (uninterpreted; axioms in std.spec)",
+	"sort.Strings":                      "sort.Strings(a) permutes a into ascending order and touches nothing else",
+	"go/format.Source":                  "go/format.Source(b) returns (fmtOf(b), nil) or (_, non-nil error); it succeeds only if b parses, and then fmtOf(b) parses too",
+	"os.WriteFile":                      "os.WriteFile performs one mutating filesystem operation on the named file (ghost fslog+1, fsname, fsdata) and returns an unconstrained error",
+	"regexp.MustCompile":                "regexp.MustCompile(`[^a-z0-9]`).ReplaceAllString(s, \"\") = stripNonAlnum(s), which satisfies alnumLower",
 	"(*regexp.Regexp).ReplaceAllString": "regexp.MustCompile(`[^a-z0-9]`).ReplaceAllString(s, \"\") = stripNonAlnum(s), which satisfies alnumLower",
 	"unicode/utf8.DecodeRuneInString":   "utf8.DecodeRuneInString(s) = (firstRune(s), runeLen(s)) with the axioms of std.spec",
 	"unicode.IsDigit":                   "unicode.IsDigit(r) = isDigitRune(r) (uninterpreted; axioms in std.spec)",
